@@ -22,6 +22,10 @@ def pairings_2d():
                  max_resp=1, sim_max_resp=4),
         scenario("mrder_x_cat", [mr("A", 3, derived={1: {"of": [2, 3], "at": "top"}}), cat("B", 2)],
                  max_resp=2),
+        scenario("logical_x_cat", [cat("A", 3, miss=[3], ids=[1, 0, -1], logical=True), cat("B", 3, miss=[2])],
+                 max_resp=2),
+        scenario("mr_x_logical", [mr("A", 2), cat("B", 3, miss=[3], ids=[1, 0, -1], logical=True)],
+                 max_resp=1, sim_max_resp=4),
         # the typedef lists the categories in another order than the data axis ("order" list)
         scenario("cat_x_cat.tdo", [cat("A", 3, miss=[2], typedef_order="reverse"),
                                    cat("B", 4, miss=[1], typedef_order="rotate")], max_resp=2),
